@@ -204,7 +204,22 @@ func (md *c18model) apply(op c18op) (problem string) {
 			return fmt.Sprintf("%v of an absent key returned entry %v", op, e)
 		}
 	case "expire":
-		out := c.Expire(nil, tm(op.Now))
+		// Expire appends to the slice it is given: the caller's prefix (0-2 sentinel entries here) is kept
+		// and does not count as removed.
+		var prefix []kademlia.Entry[int]
+		for i := 0; i < op.Now%3; i++ {
+			prefix = append(prefix, kademlia.Entry[int]{Key: []byte("sentinel"), Value: -1 - i})
+		}
+		out := c.Expire(append([]kademlia.Entry[int]{}, prefix...), tm(op.Now))
+		if len(out) < len(prefix) {
+			return fmt.Sprintf("%v returned %d entries for a slice that held %d", op, len(out), len(prefix))
+		}
+		for i := range prefix {
+			if string(out[i].Key) != "sentinel" || out[i].Value != prefix[i].Value {
+				return fmt.Sprintf("%v overwrote element %d of the slice it was asked to append to", op, i)
+			}
+		}
+		out = out[len(prefix):]
 		want := map[string]bool{}
 		for k, me := range md.m {
 			if me.expires != 0 && me.expires < op.Now {
